@@ -1564,6 +1564,18 @@ class Executor:
         raise Unsupported(f"mutating method {meth} on {recv!r} (line {s.lineno})")
 
     def st_Assign(self, s, path):
+        if (isinstance(s.value, ast.Call) and isinstance(s.value.func, ast.Attribute) and s.value.func.attr == "setdefault"
+                and len(s.value.args) == 2 and not s.value.keywords):
+            # x = d.setdefault(k, v): the dict is updated (if k is new) and x is d[k]
+            recv = self.ev(s.value.func.value, path)
+            if isinstance(recv, PyDict):
+                k = self.ev(s.value.args[0], path)
+                v = self.ev(s.value.args[1], path)
+                new = self.mutate(recv, "setdefault", [k, v], path, s)
+                self.assign(s.value.func.value, new, path)
+                for t in s.targets:
+                    self.assign(t, new.vals[k], path)
+                return [path]
         if (isinstance(s.value, ast.Call) and isinstance(s.value.func, ast.Attribute) and s.value.func.attr == "pop"
                 and len(s.value.args) == 1 and not s.value.keywords):
             recv = self.ev(s.value.func.value, path)
